@@ -389,9 +389,12 @@ fn parse_union_definition(
 
     let directives = parse_constant_directives(tokens)?;
 
-    let _equal = tokens.parse_token_of_kind(TokenKind::Equals)?;
-
-    let union_member_types = parse_union_member_types(tokens)?;
+    // UnionMemberTypes is optional: `union Foo` and `union Foo @bar` are valid.
+    let union_member_types = if tokens.parse_token_of_kind(TokenKind::Equals).is_ok() {
+        parse_union_member_types(tokens)?
+    } else {
+        vec![]
+    };
 
     GraphQLUnionTypeDefinition {
         description,
